@@ -55,6 +55,11 @@ func OddAddendaIn(r *rng.R, batches []ach.Batcher, iats []*ach.IATBatch) (desc s
 					e.Addenda98 = a
 				}})
 			}
+			if (e.Addenda99Dishonored != nil || e.Addenda99Contested != nil) && e.Category != ach.CategoryForward {
+				cs = append(cs, cand{"category of a dishonored / contested return entry left at Forward (the default of NewEntryDetail)", func() {
+					e.Category = ach.CategoryForward
+				}})
+			}
 			if e.Addenda99 != nil && e.Addenda99Dishonored == nil {
 				cs = append(cs, cand{"Addenda99Dishonored added next to Addenda99", func() {
 					a := ach.NewAddenda99Dishonored()
